@@ -9,7 +9,10 @@ RULE = ("documents generated from segments (7 field layouts x position, 1-2 para
         "set/add/delete applied to model and implementation, traces = complete histories replayed from a fresh parse "
         "in tree mode; non-trivial = states other than the initial document.  Route units: the same, with each assignment / "
         "deletion made through another public entry point (5th element of a set, 4th of a del operation) and every way of "
-        "reading and dumping compared after each step; origin units: the file object obtained from another kind of input")
+        "reading and dumping compared after each step; origin units: the file object obtained from another kind of input; "
+        "deep units: all histories over an 8-operation alphabet to depth 5 on a six-field paragraph; ladder / value units: "
+        "generated documents with 1..40, 63..1001 (thorough: 5000) fields / paragraphs / continuation lines / comment lines / "
+        "blank lines, existing and assigned values of 997..65537 (thorough: 262145) characters, one operation each")
 BUDGET = {"quick": 240, "thorough": 3000}
 NL = "strict"
 
@@ -28,6 +31,26 @@ def bounds(tier):
                       "elements' own text) and every way of dumping (dump(fd), convert_to_text, per-paragraph dumps) are "
                       "compared with the model" % (", ".join(_doc.SET_HOWS[1:]), ", ".join(_doc.DEL_HOWS[1:]), ROUTE_VALUES,
                                                      len(route_docs2(0))),
+            "deep": "deep-narrow histories (signatures deep/<document>/...): every history over the operations delete first / "
+                    "middle / last field, add Zz, two-line value for the last field, new value for the first field, a refused "
+                    "assignment%s on a six-field paragraph (%s) to depth %s; every step judged by the model"
+                    % ("" if tier == "quick" else " (on 'two-paragraphs': also add an empty field, replace the middle field, add to the last paragraph)",
+                       ", ".join(n for n, _d in deep_docs(0)), ", ".join(str(deep_plan(n, tier)[0]) for n, _d in deep_docs(0))),
+            "count_ladders": "one generated document per count n (signatures ladder/<kind>/...) for the kinds %s (see "
+                             "_doc.ladder_spec), n in %s; both terminations of the last line for n <= %d, alternating above; "
+                             "depth 1: set / add / delete addressing the first, middle and last field of the first, middle and "
+                             "last paragraph (n > 12: five operations on the first and last paragraph)"
+                             % (", ".join(LADDER_KINDS), "1..40, " + ", ".join(str(n) for n in ladder_ns("fields", tier) if n > 40)
+                                + ("" if tier == "quick" else " (5000 only for lines, comments, gap, trailing: 2 s per case otherwise)"),
+                                12 if tier == "quick" else 40),
+            "size_ladders": "an existing field whose value is (or whose second line is) one line of L characters, edited and "
+                            "with its neighbours edited (size/<content>/...), and assigned values of one line of L characters "
+                            "(alone or as second line; value-size/<content>/...), L in %s, content %s with the special "
+                            "characters just before / at / across every multiple of 4096 (256 below 4097); assigned values of "
+                            "n continuation lines (value-ladder/lines), n in 1..40, 63..257, 1000, 1001%s; each assigned to an "
+                            "existing field with a comment, to a new field and through another spelling, in a document with and "
+                            "one without final newline" % (size_ls(tier), ", ".join(SIZE_CONTENTS),
+                                                           "" if tier == "quick" else ", 999, 1025, 2500, 2501, 5000"),
             "origins": "the file object obtained from %s instead of a list of str lines: the small alphabet at depth 1 "
                        "(depth 2 in the thorough tier) on every document; 'built' = paragraphs made with from_dict and appended "
                        "to new_empty_file(), on %d canonical documents with the full alphabet at depth 2" % (
@@ -49,7 +72,11 @@ def assumptions():
             "routes: set_kvpair_element() with a foreign element is the building block below the dict interface (it replaces "
             "the element, comment included) and is not driven directly",
             "routes: setdefault() on a present field must change nothing and return the current value; pop(k, default) on an "
-            "absent field is outside the statement"]
+            "absent field is outside the statement",
+            "deep / ladder families: the format-preserving elements offer no copy operation, so histories work on one object; "
+            "documents with repeated field names belong to C10's ladders; the ladders stop at 5000 elements and 262145 "
+            "characters (65537 in the quick tier); in the deep families the re-parse of a dump text is evaluated once per unit "
+            "and text"]
 
 
 VALUES = ["x", "", " pad ", "x\n y", "x\n y\n\tz", "\n y", "\n y\n z", "x\n y \t", "x\n", "x\n y\n"]
@@ -272,10 +299,15 @@ def units(tier, seed):
     out += [{"origin": o, "docs": [d for j, d in enumerate(docs(seed)) if j % 4 == k], "i": 5000 + 10 * n + k}
             for n, o in enumerate(_doc.ORIGINS[1:-1]) for k in range(4)]
     out += [{"origin": "built", "docs": [d], "i": 6000 + i} for i, d in enumerate(built_docs(seed))]
+    out += scale_units(tier, seed)
     return out
 
 
 def unit_cost(u, tier):
+    if "deep" in u:
+        return 400
+    if "ladders" in u or "values" in u:
+        return 30 + sum(d["n"] for d in u.get("ladders", u.get("values"))) // 20
     if "sweep" in u or u.get("large"):
         return 1
     if "routes2" in u:
@@ -310,6 +342,8 @@ def run_sweep(part, chars):
 
 def run_unit(u, tier, seed):
     part = core.Part()
+    if "deep" in u or "ladders" in u or "values" in u:
+        return run_scale(part, u, tier, seed)
     if "sweep" in u:
         return run_sweep(part, u["sweep"])
     if "routes" in u:
@@ -345,7 +379,11 @@ def run_unit(u, tier, seed):
 
 
 def replay(case):
-    _d, bad = _doc.run_history(case["doc"], [tuple(op) for op in case["history"]], NL, case.get("route"))
+    hist = [tuple(op) for op in case["history"]]
+    if "value" in case:
+        # (a generated value: the history names it as "@value")
+        hist = [op[:3] + (make_value(case["value"]),) + op[4:] if op[0] == "set" and op[3] == "@value" else op for op in hist]
+    _d, bad = _doc.run_history(_doc.case_spec(case), hist, NL, case.get("route"))
     return bad
 
 
@@ -383,9 +421,208 @@ def op_py(op):
 
 
 def repro_py(case):
+    if "doc" not in case or "value" in case:
+        return "# generated case: see mc/props/_doc.py ladder_spec / mc/props/c05.py make_value\n# %r\n" % (case,)
     origin = (case.get("route") or {}).get("origin", "str")
     return ("from debian._deb822_repro import parse_deb822_file\n"
             "text = %r\n# file object obtained via %r (see mc/props/_doc.py parse_impl)\n"
             "f = parse_deb822_file(text.splitlines(True))\nps = list(f)\n%s\nprint(repr(f.dump()))\n" % (
                 _doc.render(_doc.from_spec(case["doc"])), origin,
                 "\n".join("try:\n    %s\nexcept Exception as e: print(repr(e))" % op_py(op) for op in case["history"])))
+
+
+# ---------------------------------------------------------------- beyond the small scope
+
+DEEP_SLICES = 8
+
+
+def deep_docs(seed):
+    """six fields (one with a comment of its own, one with a continuation line) followed by a free comment and a second
+    paragraph; the same as the only paragraph of a document without final newline"""
+    v = core.rep(seed, ["v", "q", "1.0", "\u00e9"])
+    F = lambda n, val, c="": (n, c, "%s: %s\n" % (n, val))
+    fs = [F("M", v), F("C", "2", "#cm\n"), F("X", "3"), ("E", "", "E: 4\n more\n"), F("R", "5"), F("G", "6")]
+    return [("two-paragraphs", [("par", fs), ("raw", "\n#free\n\n"), ("par", [F("T", "t")])]),
+            ("open", _doc.open_tail([("par", fs)]))]
+
+
+def ops_deep(doc, wide=False):
+    """the deep-narrow alphabet on the first paragraph: delete the first / the middle / the last field; add a field (again:
+    replace it); give the last field a two-line value, the first one a new single-line value; an assignment that is
+    refused.  wide adds: add an empty field, replace the middle field, add a field to the last paragraph"""
+    ps = _doc.pars(doc)
+    par = ps[0]
+    n = len(par)
+    ops = []
+    if par:
+        ops += [("del", 0, par[0].name), ("del", 0, par[n // 2].name), ("del", 0, par[-1].name)]
+    ops.append(("set", 0, "Zz", "z%d" % n))
+    if par:
+        ops += [("set", 0, par[-1].name, "x%d\n y" % n), ("set", 0, par[0].name, "w%d" % n),
+                ("set", 0, par[-1].name, _doc.INVALID_VALUES[0])]
+    if wide:
+        ops.append(("set", 0, "Aa", ""))
+        if par:
+            ops.append(("set", 0, par[n // 2].name, " pad%d " % n))
+        ops.append(("set", len(ps) - 1, "Nn", "n%d\n\tz" % n))
+    out = []
+    for op in ops:
+        if op not in out:
+            out.append(op)
+    return out
+
+
+def ops_deep_wide(doc):
+    return ops_deep(doc, wide=True)
+
+
+def deep_plan(name, tier):
+    # (the thorough tier of this check is long already: same depth, the wider alphabet only at depth 4)
+    return (5, ops_deep) if tier == "quick" or name == "open" else (4, ops_deep_wide)
+
+
+def ops_ladder(doc, minimal=False):
+    """single assignments / additions / deletions that address the first, the middle and the last element of whatever
+    there are many of"""
+    ops = []
+    ps = _doc.pars(doc)
+    for pi in (sorted({0, len(ps) - 1}) if minimal else sorted({0, len(ps) // 2, len(ps) - 1})):
+        par = ps[pi]
+        n = len(par)
+        if not n:
+            continue
+        f, m, l = par[0].name, par[n // 2].name, par[-1].name
+        ops += [("set", pi, m, "x\n y"), ("del", pi, m), ("set", pi, "N", "n"), ("set", pi, l, "x"), ("del", pi, l)]
+        if not minimal:
+            ops += [("set", pi, f, "x"), ("del", pi, f), ("set", pi, m, ""), ("set", pi, "N", "x\n y\n\tz"), ("set", pi, l, "\n y"),
+                    ("set", pi, m.swapcase(), " pad "), ("set", pi, l, _doc.INVALID_VALUES[0])]
+    out = []
+    for op in ops:
+        if op not in out:
+            out.append(op)
+    return out
+
+
+def ops_ladder_minimal(doc):
+    return ops_ladder(doc, minimal=True)
+
+
+LADDER_KINDS = ("fields", "paragraphs", "lines", "comments", "gap", "gap-comments", "trailing")
+SIZE_CONTENTS = ("plain", "blank", "words", "colon", "multibyte", "hash", "tab")
+
+
+def ladder_ns(kind, tier):
+    ns = _doc.LADDER_NS["small"] + _doc.LADDER_NS["mid"]
+    if tier == "quick":
+        return ns + [1000, 1001]
+    # (a case with 5000 fields / paragraphs / free comment lines takes 2 s: not run)
+    return ns + _doc.LADDER_NS["big"] + [n for n in _doc.LADDER_NS["huge"]
+                                         if n < 5000 or kind not in ("fields", "paragraphs", "gap-comments")]
+
+
+def size_ls(tier):
+    return [L for L in _doc.SIZE_LS if tier != "quick" or L <= 65537]
+
+
+def ladder_descs(tier):
+    out = []
+    for kind in LADDER_KINDS:
+        for n in ladder_ns(kind, tier):
+            tails = ("closed", "open") if n <= 12 or (tier != "quick" and n <= 40) else (("open",) if n % 2 else ("closed",))
+            for tail in tails:
+                if kind == "trailing" and tail == "open":
+                    continue
+                d = {"kind": kind, "n": n, "tail": tail}
+                out.append(d)
+                if kind == "lines" and n <= 40:
+                    out.append(dict(d, pos="last"))
+    for L in size_ls(tier):
+        for ci, content in enumerate(SIZE_CONTENTS):
+            out.append({"kind": "size", "n": L, "content": content, "tail": "open" if (ci + L) % 2 else "closed",
+                        "pos": "last" if ci % 3 == 2 else "mid", "multi": ci % 2 == 1})
+    return out
+
+
+def make_value(desc):
+    """a generated value to assign: {"kind": "size", "n": L, "content": c, "multi": bool} = one line of L characters
+    (multi: as the second line of a two-line value); {"kind": "lines", "n": n} = a first line and n continuation lines"""
+    if desc["kind"] == "size":
+        t = _doc.sized_text(desc["n"], desc["content"])
+        return "head\n " + t if desc.get("multi") else t
+    return "first" + "".join("\n%sline %d" % ("\t" if i % 9 == 0 else " ", i) for i in range(1, desc["n"] + 1))
+
+
+VALUE_DOCS = {"closed": [("par", [("A", "", "A: 1\n"), ("V", "#cm\n", "V: old\n more\n"), ("B", "", "B: 2\n")]), ("raw", "\n"),
+                         ("par", [("C", "", "C: 3\n")])],
+              "open": [("par", [("A", "", "A: 1\n"), ("B", "", "B: 2\n"), ("V", "", "V: old")])]}
+
+
+def value_descs(tier):
+    out = []
+    for n in _doc.LADDER_NS["small"] + _doc.LADDER_NS["mid"] + [1000, 1001] + ([] if tier == "quick" else [999, 1025, 2500, 2501, 5000]):
+        out.append({"kind": "lines", "n": n})
+    for L in size_ls(tier):
+        for ci, content in enumerate(SIZE_CONTENTS):
+            out.append({"kind": "size", "n": L, "content": content, "multi": False})
+            if ci % 2 == 0:
+                out.append({"kind": "size", "n": L, "content": content, "multi": True})
+    return out
+
+
+def scale_units(tier, seed):
+    out = []
+    for name, d in deep_docs(seed):
+        for k in range(DEEP_SLICES):
+            out.append({"deep": name, "doc": d, "slice": k, "i": 7000 + len(out)})
+    descs = ladder_descs(tier)
+    small = [d for d in descs if d["n"] <= 40 and d["kind"] != "size"]
+    mid = [d for d in descs if 40 < d["n"] <= 257 and d["kind"] != "size"]
+    rest = [d for d in descs if d["n"] > 257 or d["kind"] == "size"]
+    for k in range(8):
+        out.append({"ladders": small[k::8], "i": 8000 + k})
+    for k in range(8):
+        out.append({"ladders": mid[k::8], "i": 8010 + k})
+    for k, d in enumerate(rest):
+        out.append({"ladders": [d], "i": 8100 + k})
+    vs = value_descs(tier)
+    for k in range(16):
+        out.append({"values": vs[k::16], "i": 9000 + k})
+    return out
+
+
+def run_scale(part, u, tier, seed):
+    if "deep" in u:
+        route = {"family": "deep/" + u["deep"], "reparse-memo": True}
+        base = {"doc": u["doc"], "route": route}
+        depth, fn = deep_plan(u["deep"], tier)
+        _doc.explore(part, u["doc"], fn, depth, 0, NL, base, first_slice=(u["slice"], DEEP_SLICES))
+        return part
+    if "values" in u:
+        for vd in u["values"]:
+            val = make_value(vd)
+            fam = "value-size/%s" % vd["content"] if vd["kind"] == "size" else "value-ladder/lines"
+            route = {"family": fam}
+            for tail, spec in sorted(VALUE_DOCS.items()):
+                doc = _doc.from_spec(spec)
+                for key in ("V", "N", "v"):
+                    op = ("set", 0, key, val)
+                    nd, viol = _doc.run_last(spec, [], doc, op, NL, route)
+                    part.states += 1
+                    part.transitions += 1
+                    part.traces += 1
+                    part.evaluations += 1
+                    part.nontrivial += 1
+                    case = {"doc": spec, "value": vd, "history": [("set", 0, key, "@value")], "route": route}
+                    for sig, exp, obs in viol:
+                        part.violation(sig, case, exp, obs, rank=1)
+                    part.outcomes["%s/%s/%s" % (fam, tail, "ok" if not viol else "violation")] += 1
+        part.sample(case)
+        return part
+    for d in u["ladders"]:
+        fam = ("size/%s" % d["content"]) if d["kind"] == "size" else "ladder/" + d["kind"]
+        base = {"ladder": d, "route": {"family": fam}}
+        fn = ops_ladder if d["n"] <= 12 else ops_ladder_minimal
+        _doc.explore(part, _doc.ladder_spec(d), fn, 1, 0, NL, base)
+        part.extra["ladder-documents"] += 1
+    part.sample(dict(base, history=[fn(_doc.from_spec(_doc.ladder_spec(d)))[0]]))
+    return part
